@@ -143,6 +143,213 @@ def shrink(ctx, tree, stream):
     return cur
 
 
+# ------------------------------------------------------------------ \u escapes over the whole code space
+def _uesc(cp, upper=False):
+    """spelling of one code point with \\u escapes only (a UTF-16 pair above U+FFFF)"""
+    f = "\\u%04X" if upper else "\\u%04x"
+    if cp < 0x10000:
+        return f % cp
+    v = cp - 0x10000
+    return (f % (0xD800 + (v >> 10))) + (f % (0xDC00 + (v & 0x3FF)))
+
+def _denoted(body):
+    """what the text between the quotes denotes, computed here from the source text with Python's JSON
+    reader (independent of the compiler and of the Lean model); None = no character sequence
+    (a lone or mismatched surrogate escape)"""
+    import json
+    s = json.loads('"' + body + '"')
+    if any(0xD800 <= ord(c) <= 0xDFFF for c in s):
+        return None
+    return s
+
+def _cps(s):
+    return " ".join(str(ord(c)) for c in s)
+
+def u_sweep_cases(tier, seed):
+    import random
+    rng = random.Random(seed * 7919 + 11)
+    ok, rej = [], []          # (class, body)
+    bounds = set()
+    for plane in range(17):
+        b = plane * 0x10000
+        bounds.update([b, b + 1, b + 0xFFFF, b + 0xFFFE, b + 0x8000, b + 0x3FF, b + 0x400, b + 0xFC00, b + rng.randrange(0x10000)])
+    bounds.update([0x7F, 0x80, 0x7FF, 0x800, 0xD7FF, 0xE000, 0xFFFD, 0xFFFF, 0x10000, 0x10FFFF, 0x1F600, 0x20000, 0x2A6DF, 0xE0001, 0xF0000, 0x100000])
+    bounds = sorted(c for c in bounds if not (0xD800 <= c <= 0xDFFF) and c <= 0x10FFFF)
+    for cp in bounds:
+        for upper in (False, True):
+            ok.append(("uesc-boundary-plane%d" % (cp >> 16), "a" + _uesc(cp, upper) + "b"))
+        if cp >= 0x20 and cp not in (0x22, 0x5C, 0x7F) and not (0x80 <= cp < 0xA0):
+            raw = chr(cp)
+            ok.append(("uesc-mixed-raw-plane%d" % (cp >> 16), raw + _uesc(cp) + "x" + _uesc(cp, True) + raw))
+    # every high surrogate with a few low ones, every low surrogate with a few high ones
+    for hi in range(0xD800, 0xDC00):
+        for lo in (0xDC00, 0xDFFF, 0xDC00 + ((hi * 37 + seed) & 0x3FF)):
+            ok.append(("uesc-pair-all-high", "\\u%04x\\u%04X" % (hi, lo)))
+    for lo in range(0xDC00, 0xE000):
+        for hi in (0xD800, 0xDBFF, 0xD840, 0xD83D, 0xD800 + ((lo * 53 + seed) & 0x3FF)):
+            ok.append(("uesc-pair-all-low", "\\u%04X\\u%04x" % (hi, lo)))
+    n_rand = 20000 if tier == "thorough" else 1500
+    for _ in range(n_rand):
+        k = rng.randrange(1, 5)
+        body = ""
+        for _ in range(k):
+            cp = rng.choice([rng.randrange(0x20, 0xD800), rng.randrange(0xE000, 0x10000), rng.randrange(0x10000, 0x110000),
+                             rng.randrange(0x10000, 0x110000), rng.choice(bounds)])
+            r = rng.random()
+            if r < 0.7 or cp < 0x20 or cp in (0x22, 0x5C) or 0x7F <= cp < 0xA0:
+                body += _uesc(cp, rng.random() < 0.5)
+            else:
+                body += chr(cp)
+        ok.append(("uesc-random", body))
+    # lone / mismatched surrogates: no character is denoted, a diagnostic is expected
+    for hi in (0xD800, 0xD83D, 0xDBFF):
+        for tail in ("", "x", "\\n", "\\u0041", "\\u%04x" % hi, "\\uD7FF", "\\uE000", " \\udc00", "\\\\udc00"):
+            rej.append(("uesc-lone-high", "a\\u%04x%s" % (hi, tail)))
+    for lo in (0xDC00, 0xDE00, 0xDFFF):
+        for tail in ("", "x", "\\ud800", "\\u%04x" % lo):
+            rej.append(("uesc-lone-low", "\\u%04x%s" % (lo, tail)))
+    for _ in range(60 if tier == "thorough" else 12):
+        rej.append(("uesc-lone-high", "\\u%04x" % rng.randrange(0xD800, 0xDC00) + rng.choice(["", "z", "\\u%04x" % rng.randrange(0, 0xD800)])))
+        rej.append(("uesc-lone-low", rng.choice(["", "q"]) + "\\u%04X" % rng.randrange(0xDC00, 0xE000)))
+    return ok, rej
+
+def u_sweep(ctx, have_model, replay_cases=None):
+    """string literals, string patterns and multi-line strings whose text uses \\u escapes over the
+    whole code space; oracle = code points denoted by the source text (computed by _denoted)"""
+    ok, rej = u_sweep_cases(ctx.tier, ctx.seed) if replay_cases is None else ([], [])
+    progs, meta = [], {}
+    def add(kind, cls, bodies, src, expect):
+        pid = "u%d" % len(progs)
+        progs.append((pid, src))
+        meta[pid] = {"kind": kind, "class": cls, "bodies": bodies, "src": src, "expect": expect}
+        return pid
+    def lit_prog(bodies):
+        return "fn main() -> unit {\n" + "".join('    let x%d = "%s";\n' % (i, b) for i, b in enumerate(bodies)) + "    ()\n}\n"
+    def pat_prog(raw, body):
+        return 'fn main() -> unit {\n    let r = match "%s" {\n        "%s" => 1,\n        _ => 0,\n    };\n    ()\n}\n' % (raw, body)
+    # sanity of the generator itself: everything in `ok` denotes something, nothing in `rej` does
+    for cls, b in ok:
+        assert _denoted(b) is not None and _denoted(b) != "", (cls, b)
+    for cls, b in rej:
+        assert _denoted(b) is None, (cls, b)
+    PACK = 40
+    for i in range(0, len(ok), PACK):
+        chunk = ok[i:i + PACK]
+        add("lit-pack", "packed", [b for _, b in chunk], lit_prog([b for _, b in chunk]),
+            sorted(_cps(_denoted(b)) for _, b in chunk))
+    for cls, b in rej:
+        add("lit", cls, [b], lit_prog([b]), None)
+    # string patterns: the escaped spelling in a match arm against the raw UTF-8 spelling as scrutinee
+    pats = [(c, b) for c, b in ok if c.startswith("uesc-boundary")]
+    pats += [(c, b) for k, (c, b) in enumerate(ok) if c == "uesc-pair-all-high" and k % 3 == 2]
+    pats += [(c, b) for k, (c, b) in enumerate(ok) if c == "uesc-random"][: (2000 if ctx.tier == "thorough" else 200)]
+    def rawable(s):
+        return all(ord(ch) >= 0x20 and ch not in '"\\' and not (0x7F <= ord(ch) < 0xA0) for ch in s)
+    for cls, b in pats:
+        d = _denoted(b)
+        if rawable(d):
+            add("pat", "pat-" + cls, [b], pat_prog(d, b), sorted([_cps(d), _cps(d)]))
+    for cls, b in rej[::3]:
+        add("pat", "pat-" + cls, [b], pat_prog("zz", b), None)
+    # multi-line strings are raw: a \u escape there denotes its own six characters
+    for b in ("\\ud840\\udc00", "\\u0041 \\uD800", "\U00020000\\uD840\\uDC00"):
+        src = "fn main() -> unit {\n    let x =\n        \\\\%s\n        \\\\end\n    ;\n    ()\n}\n" % b
+        add("mstr", "mstr-uesc-raw", [b], src, [_cps(b + "\nend")])
+
+    for c in replay_cases or []:
+        kind = "pat" if "match" in c["source"] else ("mstr" if c["class"].startswith("mstr") else "lit")
+        add(kind, c["class"], [c["spelling"][1:-1]], c["source"], c["expected_code_points"])
+    f = os.path.join(ctx.run_dir, "c11.strs.in.tsv")
+    esc = lambda t: t.replace("\\", "\\\\").replace("\n", "\\n").replace("\t", "\\t").replace("\r", "\\r")
+    def run(ps):
+        open(f, "w", encoding="utf-8").write("".join(f"{pid}\t{esc(src)}\n" for pid, src in ps))
+        okk, out = ctx.gv("c11", ["strs", "--file", f])
+        res = {}
+        if okk:
+            for r in vlib.read_tsv(os.path.join(ctx.run_dir, "c11.strs.tsv")):
+                if len(r) >= 3 and r[1] == "STRS":
+                    res[r[0]] = (r[2], r[3] if len(r) > 3 else "")
+        return res
+    res = run(progs)
+    # a packed program that is not as expected is re-run one literal at a time
+    redo = []
+    for pid, m in list(meta.items()):
+        if m["kind"] == "lit-pack":
+            st, val = res.get(pid, ("MISSING", ""))
+            if not (st == "OK" and sorted(val.split("|")) == m["expect"]):
+                for b in m["bodies"]:
+                    q = "r%d" % len(redo)
+                    redo.append((q, lit_prog([b])))
+                    meta[q] = {"kind": "lit", "class": "unpacked", "bodies": [b], "src": lit_prog([b]), "expect": [_cps(_denoted(b))]}
+                del meta[pid]
+    if redo:
+        res.update(run(redo))
+    # model: decoding of every literal body (tie)
+    model_in, bidx = [], {}
+    for pid, m in meta.items():
+        if m["kind"] == "mstr":
+            continue
+        for j, b in enumerate(m["bodies"]):
+            mid = f"{pid}.{j}"
+            bidx[mid] = b
+            model_in.append(f"{mid}\tstr\t{_cps(b)}")
+    mres = ctx.model("c11", model_in) if (model_in and have_model) else {}
+    n = n_ok = n_tie = n_lits = n_diff = 0
+    classes = {}
+    samples = []
+    for pid, m in meta.items():
+        st, val = res.get(pid, ("MISSING", ""))
+        n += 1
+        n_lits += len(m["bodies"])
+        classes[m["kind"] + ":" + m["class"].split("-plane")[0]] = classes.get(m["kind"] + ":" + m["class"].split("-plane")[0], 0) + len(m["bodies"])
+        exp = m["expect"]
+        good = (st == "ERR" and val.startswith("lower:")) if exp is None else (st == "OK" and sorted(val.split("|")) == exp)
+        if good:
+            n_ok += 1
+        else:
+            b = m["bodies"][0]
+            where = {"lit": "string literal", "lit-pack": "string literal", "pat": "string pattern", "mstr": "multi-line string"}[m["kind"]]
+            if exp is None:
+                sig = {"oracle": "literal-value", "class": "str-escape-surrogate", "site": where, "outcome": "accepted-without-denotation"}
+                what = "a lone or mismatched surrogate escape denotes no character but is accepted"
+            else:
+                sig = {"oracle": "literal-value", "class": "str-escape-u" if m["kind"] != "mstr" else "mstr", "site": where,
+                       "outcome": "rejected" if st != "OK" else "wrong-value"}
+                what = "a \\u escape (or UTF-16 surrogate pair of escapes) does not denote the code point written"
+            ctx.report(sig, what, {"id": pid, "class": m["class"], "spelling": '"%s"' % b,
+                                   "expected_code_points": exp, "observed": f"{st} {val}", "source": m["src"]})
+        # tie: the model's decoding of each body = what the implementation produced
+        if m["kind"] != "mstr":
+            for j, b in enumerate(m["bodies"]):
+                mv = (mres.get(f"{pid}.{j}") or ["?"])[0]
+                d = _denoted(b)
+                want = "REJECT" if d is None else _cps(d)
+                impl = want if good else None
+                if impl is None and len(m["bodies"]) == 1:
+                    if st == "ERR" and val.startswith("lower:"):
+                        impl = "REJECT"
+                    elif st == "OK" and val:
+                        vals = val.split("|")
+                        if m["kind"] == "pat" and exp and exp[0] in vals:
+                            vals.remove(exp[0])          # the raw-UTF-8 scrutinee; what is left is the pattern constant
+                        impl = vals[0] if len(vals) == 1 else "?"
+                    else:
+                        impl = "?"
+                if mv == impl:
+                    n_tie += 1
+                else:
+                    n_diff += 1
+                    if n_diff <= 6:
+                        ctx.broken_ties.append(("model≠implementation (\\u escapes)", f"{pid} \"{b}\": real={st} {val[:80]} model={mv}"))
+        if len(samples) < 3 and m["kind"] in ("lit", "pat") and (exp is None or m["kind"] == "pat") and not any(x["kind"] == m["kind"] and (x["expected"] is None) == (exp is None) for x in samples):
+            samples.append({"id": pid, "kind": m["kind"], "class": m["class"], "spelling": '"%s"' % m["bodies"][0],
+                            "expected": exp, "observed": f"{st} {val}"})
+    if n_diff > 6:
+        ctx.broken_ties.append(("model≠implementation (\\u escapes)", f"… {n_diff - 6} more"))
+    return {"programs": n, "programs_ok": n_ok, "literals": n_lits, "tie_ok": n_tie, "tie_total": len(model_in),
+            "classes(literals)": classes, "samples": samples}
+
+
 def run(ctx):
     ctx.extract()
     ctx.build_lean(["GomlVerif.Props.C11"])
@@ -260,7 +467,8 @@ def run(ctx):
     replay_spellings = None
     if ctx.replay:
         import json
-        replay_spellings = {c["spelling"] for c in json.load(open(ctx.replay)).get("cases", []) if "spelling" in c}
+        replay_spellings = {c["spelling"] for c in json.load(open(ctx.replay)).get("cases", [])
+                            if "spelling" in c and "expected_code_points" not in c}
     if not ctx.replay or replay_spellings:
         ok, out = ctx.gv("c11", ["lits"])
         lrows = [r for r in (vlib.read_tsv(os.path.join(ctx.run_dir, "c11.lits.tsv")) if ok else []) if len(r) >= 6 and r[1] == "LIT"]
@@ -303,6 +511,18 @@ def run(ctx):
                 if not any(s["class"] == cls for s in lit_samples):
                     lit_samples.append({"id": cid, "class": cls, "spelling": spelling, "expected": expected, "observed": observed})
 
+    # ---------------------------------------------------------------- \u escapes over the whole code space
+    usw = {}
+    if ctx.replay:
+        import json
+        rc = [c for c in json.load(open(ctx.replay)).get("cases", []) if "expected_code_points" in c]
+        if rc:
+            usw = u_sweep(ctx, have_model, rc)
+            n_eval += usw["programs"]
+    else:
+        usw = u_sweep(ctx, have_model)
+        n_eval += usw["programs"]
+
     # ---------------------------------------------------------------- corpus goldens (information)
     gold = {}
     if not ctx.replay:
@@ -327,9 +547,11 @@ def run(ctx):
         "model_instances_of_parse_print": n_model_thm_ok,
         "literals": n_lit, "literal_values_ok": n_lit_ok, "literal_tie_ok": n_lit_tie, "literal_classes": lit_classes,
         "tight_rendering": getattr(rnd, "tight_note", ""),
+        "u_escape_sweep": usw,
         "corpus_goldens": gold,
         "impl_oracle_failures": len(ctx.violations) + sum(h["count"] for h in ctx.known_hits),
-        "model_diffs": (n_eval - n_lit - n_tie_ok) + (n_str - n_lit_tie),
+        "model_diffs": (n_eval - n_lit - usw.get("programs", 0) - n_tie_ok) + (n_str - n_lit_tie)
+                       + (usw.get("tie_total", 0) - usw.get("tie_ok", 0)),
     }
     cov.update(cov0)
     ctx.assumptions += [
